@@ -29,6 +29,12 @@ def spellings(dialect, given, free):
         kws = [k for k in order[npos:] if k in given] + list(free)
         for perm in itertools.permutations(kws):
             out.append([[None, k] for k in order[:npos]] + [[k, k] for k in perm])
+        # a free key=value entry does not take a positional slot: it may also stand between / before the positional values
+        if npos and free:
+            posl = [[None, k] for k in order[:npos]]
+            rest = [[k, k] for k in order[npos:] if k in given]
+            for cut in range(0, npos):
+                out.append(posl[:cut] + [[k, k] for k in free] + posl[cut:] + rest)
     return out
 
 
@@ -40,9 +46,9 @@ class C14(core.Prop):
     STUBS = ['inspect.Signature.bind: native (keys are concrete strings)', 're.finditer/findall on symbolic strings: symx matcher']
     ASSUMPTIONS = ['annotation keys are concrete; values are symbolic: numbers in the listed spellings (sign, digits, dot, '
                    'single-digit exponent) read as exact rationals, chirality letter R/S, free values 2 alnum characters',
-                   'positional values precede keyword entries']
+                   'positional values precede the keyword entries of reserved keys; free key=value entries may stand anywhere']
     OUTSIDE = ['symbolic keys; numeric spellings outside the listed forms (inf, nan, underscores, multi-digit exponents)',
-               'positional values written after keyword entries']
+               'positional values written after keyword entries of *reserved* keys']
     BOUNDS = {
         'quick': 'base-node, coarse-fragment-atom and atomistic-fragment-atom dialects: every subset of reserved keys x 0-1 free key x '
                  'every spelling (positional prefix x keyword order) with numeric spellings %s; resolver carry-through on 3 strings' % NUMFORMS_Q,
